@@ -5,6 +5,8 @@ import Driver.Prefix
 import Driver.Dispatch
 import Driver.Plugins
 import Driver.File
+import Driver.Config
+import Driver.Chain
 import Std.Data.HashMap
 open Drv
 
@@ -12,6 +14,43 @@ open Drv
 structure Engine (σ : Type) where
   init : σ
   step : σ → String → String → σ × List String
+
+/-- messages that make a step unacceptable inside a concurrent batch -/
+def bad (msgs : List String) : Bool := msgs.any (fun m => m.startsWith "DIVERGE dom" || m.startsWith "FAIL")
+
+/-- Search a one-at-a-time order of the batch's operations under which the engine accepts every
+outcome (depth-first, pruned at the first unacceptable step). Returns the state and the messages
+(with their line numbers) of the accepted order. -/
+partial def linearise {σ} (e : Engine σ) (st : σ) (todo : List (Nat × String × String))
+    (acc : List (Nat × List String)) (fuel : IO.Ref Nat) : IO (Option (σ × List (Nat × List String))) := do
+  match todo with
+  | [] => return some (st, acc.reverse)
+  | _ =>
+    for i in List.range todo.length do
+      let f ← fuel.get
+      if f == 0 then return none
+      fuel.set (f - 1)
+      match todo[i]? with
+      | none => pure ()
+      | some (n, op, res) =>
+        let (st', msgs) := e.step st op res
+        if !(bad msgs) then
+          let rest := todo.take i ++ todo.drop (i + 1)
+          match ← linearise e st' rest ((n, msgs) :: acc) fuel with
+          | some r => return some r
+          | none => pure ()
+    return none
+
+partial def readBatch (h : IO.FS.Stream) (k : Nat) (n : Nat) (acc : List (Nat × String × String)) :
+    IO (List (Nat × String × String) × Nat) := do
+  if k == 0 then return (acc.reverse, n)
+  let line ← h.getLine
+  if line.isEmpty then return (acc.reverse, n)
+  let line := String.ofList (line.toList.reverse.dropWhile (fun c => c == '\n' || c == '\r')).reverse
+  if line.startsWith "#" || line.isEmpty then readBatch h k (n+1) acc
+  else
+    let (op, res) := splitArrow line
+    readBatch h (k-1) (n+1) ((n, op, res) :: acc)
 
 partial def loop {σ} (e : Engine σ) (h : IO.FS.Stream) (st : σ) (n : Nat)
     (br : Std.HashMap String Nat) (ops div drift fails : Nat) : IO Unit := do
@@ -24,6 +63,41 @@ partial def loop {σ} (e : Engine σ) (h : IO.FS.Stream) (st : σ) (n : Nat)
   let line := String.ofList (line.toList.reverse.dropWhile (fun c => c == '\n' || c == '\r')).reverse
   if line.startsWith "#" || line.isEmpty then
     loop e h st (n+1) br ops div drift fails
+  else if line.startsWith "batch " then
+    -- a concurrent batch: the next k lines are outcomes of operations issued together
+    let k := ((line.drop 6).toString.toNat?).getD 0
+    let (items, n') ← readBatch h k (n+1) []
+    let fuel ← IO.mkRef 200000
+    let found ← linearise e st items [] fuel
+    let (st', results, extra) ← match found with
+      | some (s', rs) => pure (s', rs, ([] : List String))
+      | none =>
+        -- no order works: report, and continue along the recorded order
+        let mut s := st
+        let mut rs : List (Nat × List String) := []
+        for (ln, op, res) in items do
+          let (s2, msgs) := e.step s op res
+          s := s2
+          rs := (ln, msgs) :: rs
+        pure (s, rs.reverse, [s!"{n} FAIL C16 no one-at-a-time order of this concurrent batch of {k} operations explains their outcomes"])
+    let mut br := br
+    let mut div := div
+    let mut drift := drift
+    let mut fails := fails
+    for x in extra do
+      IO.println x
+      fails := fails + 1
+    br := br.insert "br:batch" ((br.getD "br:batch" 0) + 1)
+    for (ln, msgs) in results do
+      for m in msgs do
+        if m.startsWith "br:" then
+          br := br.insert m ((br.getD m 0) + 1)
+        else
+          IO.println s!"{ln} {m}"
+          if m.startsWith "DIVERGE dom" then div := div + 1
+          else if m.startsWith "DIVERGE" then drift := drift + 1
+          else if m.startsWith "FAIL" then fails := fails + 1
+    loop e h st' n' br (ops + items.length) div drift fails
   else
     let (op, res) := splitArrow line
     let (st', msgs) := e.step st op res
@@ -54,4 +128,6 @@ def main (args : List String) : IO UInt32 := do
   | ["dispatch6"] => run ⟨(), fun _ op res => ((), Dispatch.step6 op res)⟩; return 0
   | ["plugins"] => run ⟨(), fun _ op res => ((), Plugins.step op res)⟩; return 0
   | ["file"] => run ⟨({} : File.St), File.step⟩; return 0
+  | ["config"] => run ⟨(), fun _ op res => ((), Config.step op res)⟩; return 0
+  | ["chain"] => run ⟨(), fun _ op res => ((), Chain.step op res)⟩; return 0
   | _ => IO.eprintln "usage: drv <engine> < trace"; return 2
